@@ -21,7 +21,7 @@ def _path_text(path, limit=14):
         if n.kind in ('stmt', 'test', 'loop', 'return', 'raise', 'break', 'continue'):
             out.append('L%d %s' % (n.line, n.text()))
     if len(out) > limit:
-        out = out[:limit // 2] + ['...'] + out[-limit // 2:]
+        out = ['...'] + out[-limit:]
     return out
 
 
